@@ -32,13 +32,14 @@ def configs(tier, seed):
                         didx=rng.choice([0, 1, 2]) if kind == "state" else 0,
                         dts=[rng.choice([F(1, 2), F(1), F(2)]) for _ in range(2)],
                         atol=rng.choice([F(1, 8), F(1, 2), F(1, 32)]), rtol=rng.choice([F(1, 8), F(1, 4), F(0)]),
-                        initc=rng.random() < 0.3))
+                        initc=rng.random() < 0.3, scalar_std=rng.random() < 0.35))
     return out
 
 
 def run_config(c):
     """-> (trace, [observed error powers]) : init, two steps, an estimate after each step"""
     TR.reset()
+    tracing.STD_SCALAR[0] = bool(c.get("scalar_std", False))
     inner = l1.SOLVERS[c["solver"]](strategy=l1.STRATEGIES[c["strategy"]](), constraint=tracing.TConstraint(0, residual_order=c["resorder"]),
                                     constraint_init=tracing.TConstraint(1) if c["initc"] else None)
     constraint = tracing.TConstraint(0, residual_order=c["resorder"])
@@ -58,11 +59,12 @@ def run_config(c):
         ep, es = est.estimate_error_norm(es, previous=state, proposed=prop, dt=float(dt), atol=float(c["atol"]), rtol=float(c["rtol"]), damp=0.0)
         t = t + dt
         ints = [l1.units(float(dt)), l1.units(float(t)), int(c["relin"]), int(c["kind"] == "state"), c["didx"], int(c["perunit"]), c["norm"], c["resorder"],
-                c["atol"].numerator, c["atol"].denominator, c["rtol"].numerator, c["rtol"].denominator]
+                c["atol"].numerator, c["atol"].denominator, c["rtol"].numerator, c["rtol"].denominator, int(c.get("scalar_std", False))]
         TR.marker("errnorm", {"prev_u": state.u.mean_flat, "prop_u": prop.u.mean_flat, "prop_fx": prop.fun_evals.A, "ints": jnp.asarray(ints, dtype=jnp.float64)})
         eps.append(float(ep))
         state = prop
     jax.effects_barrier()
+    tracing.STD_SCALAR[0] = False
     steps = []
     tt = F(0)
     for dt in c["dts"]:
